@@ -36,8 +36,21 @@ def node_kernels(ctx):
             f = ctx.prog.resolve_method(cls, m)
             if _construction_only(ctx, f, 0):
                 continue          # a helper of the constructor (validation of the description): not a kernel of the solver
+            if _private_helper(ctx, f):
+                continue          # judged inside the methods that call it (it is inlined there, with the arguments they pass)
             out.append((role, cls, m, f))
     return out
+
+
+def _private_helper(ctx, f):
+    """a method `_x` with parameters beyond the state list that is only ever called as self._x(...) from methods of the node classes"""
+    if f is None or not f.name.startswith("_") or f.name.startswith("__"):
+        return False
+    if len([p for p in f.params if p != "self"]) < 2:
+        return False
+    sites = [(g, c) for g, c in ctx.cg.callers_of(f) if not getattr(c, "synthetic", False)]
+    return bool(sites) and all(g.cls is not None and isinstance(c.func, ast.Attribute) and isinstance(c.func.value, ast.Name) and c.func.value.id == "self"
+                               and g.qual != f.qual for g, c in sites)
 
 
 def _construction_only(ctx, f, depth):
